@@ -25,6 +25,12 @@ def jobs(tier, seed):
         out.append({"kind": "sim-race", "seed": seed, "i": i, "n": 60 if q else 400})
     for i in range(6 if q else 16):
         out.append({"kind": "producers", "seed": seed, "i": i, "producers": 2 + i % 5, "per": 1000 if q else 5000})
+    # real stress: the real threaded gateways on a real loopback socket / pty while the device keeps killing the link
+    for i in range(3 if q else 12):
+        out.append({"kind": "real-stress", "gw": "serial", "seed": seed * 100 + i, "pace": [[0.003, 0.01, 0.03, 0.08], [0.2, 0.4, 0.6], [0.05, 0.1, 0.3]][i % 3],
+                    "churn": [2.0, 4.0, 3.0][i % 3]})
+    for i in range(2 if q else 8):
+        out.append({"kind": "real-stress", "gw": "tcp", "seed": seed * 100 + i, "pace": [[0.003, 0.01, 0.03, 0.08], [0.05, 0.1, 0.3]][i % 2], "churn": 2.0})
     return out
 
 
@@ -281,6 +287,57 @@ def run_sim_race(job, res):
         faulthandler.cancel_dump_traceback_later()
 
 
+def run_real_stress(job, res):
+    """Real threaded gateway + real device under connection churn (vf/realdev.py). The run is not replayable bit for bit:
+    an anomaly counts when its mechanism (signature up to the exception site) shows again in at least one of two re-runs."""
+    from .. import realdev as R
+
+    def once(seed):
+        try:
+            out = R.run_stress(job["gw"], seed, churn_s=job["churn"], pace=tuple(job["pace"]))
+        except OSError as exc:
+            if exc.errno in (1, 13, 97, 99, 2, 19):
+                return None, repr(exc)
+            raise
+        return out, None
+
+    out, un = once(job["seed"])
+    if un:
+        res.count("real_device_unavailable")
+        res.notes.append(f"real-device stress unavailable here: {un}")
+        return
+    V = R.check_stress(out)
+    st = out["stats"]
+    res.evals += 1
+    res.count("real_stress_runs")
+    res.count(f"real_stress_runs[{job['gw']}]")
+    res.count("real_stress_commands_queued", st["queued"])
+    res.count("real_stress_commands_received", st["received"])
+    res.count("real_stress_connections_killed", st["drops"])
+    res.count("real_stress_connections", st["connections"])
+    res.count("real_stress_other_thread_exceptions", st["other_thread_errors"])
+    if st["drops"] >= 3 and st["received"] >= 50:
+        res.nontrivial(("real-stress", job["gw"], job["seed"]))
+    if V:
+        mech = lambda sig: ":".join(sig.split(":")[:2])
+        again = set()
+        for k in (1, 2):
+            o2, un2 = once(job["seed"] + 7919 * k)
+            if o2 is not None:
+                again |= {mech(s) for s, _ in R.check_stress(o2)}
+        dropped = [s for s, _ in V if mech(s) not in again]
+        if dropped:
+            res.count("real_anomalies_not_reproduced", len(dropped))
+            res.notes.append(f"real-stress anomaly not seen again in two re-runs (not judged): {dropped[:3]} {job['gw']} seed={job['seed']}")
+        V = [(s, w) for s, w in V if mech(s) in again]
+    case = {"kind": "real-stress", "gw": job["gw"], "seed": job["seed"], "pace": job["pace"], "churn": job["churn"], "stats": st,
+            "thread_errors": [list(map(str, e)) for e in out["errors"][:8]]}
+    for sig, what in V:
+        res.violation(sig, what + f"  [real {job['gw']} device, {st['drops']} connections killed, {st['received']} commands received]", case)
+    if job["seed"] % 100 == 0:
+        res.sample({"kind": "real-stress", "gw": job["gw"], "stats": st})
+
+
 def run_producers(job, res):
     """Several producers queue tagged commands; the real poll thread must send each exactly once, per-producer FIFO."""
     import sys
@@ -374,6 +431,8 @@ def run(job):
         run_pump_sched(job, res)
     elif job["kind"] == "sim-race":
         run_sim_race(job, res)
+    elif job["kind"] == "real-stress":
+        run_real_stress(job, res)
     else:
         run_producers(job, res)
     return res
@@ -381,7 +440,9 @@ def run(job):
 
 def replay(case):
     res = Result()
-    if case["kind"] == "sim-race":
+    if case["kind"] == "real-stress":
+        r = run({"kind": "real-stress", "gw": case["gw"], "seed": case["seed"], "pace": case["pace"], "churn": case["churn"]})
+    elif case["kind"] == "sim-race":
         r = run({"kind": "sim-race", "seed": 0, "i": 0, "n": 200})
     elif case["kind"] == "pump-sched":
         r = run({"kind": "pump-sched", "gran": case["gran"], "bound": case.get("bound", 2), "ncmd": 3, "with_stop": case.get("with_stop", False)})
@@ -407,14 +468,23 @@ def finish(agg, tier):
                 "lost wake-up shows as the loop waiting forever with commands queued). The same races in the real threaded serial / "
                 "TCP stacks under the thread simulation: a reply being sent exactly when the user disconnects or the link fails. "
                 "Producers x pump: 2-6 real producer threads and the real poll thread (switch interval "
-                "10 us) checked by an exactly-once / per-producer-FIFO log checker. distinct = (scenario, write outcome, granularity, "
+                "10 us) checked by an exactly-once / per-producer-FIFO log checker. Real stress: the real SerialGateway / TCPGateway on "
+                "a real pty / 127.0.0.1 socket, 3 producer threads queueing numbered commands while the device kills the connection "
+                "every 3-600 ms for 2-4 s, then a quiet phase and a final batch; the device's receive log is checked for commands "
+                "received twice, garbled or out of queue order, the poll thread must survive, and once the faults stop every queued "
+                "command must arrive (an anomaly counts when its mechanism shows again in one of two re-runs). distinct = (scenario, write outcome, granularity, "
                 "start thread, switch positions); non-trivial when the schedule really switched inside both bodies.",
         "exhaustive": True,
         "floors": [("schedules", c.get("schedules", 0), 1500), ("schedules_with_real_interleaving", c.get("schedules_with_real_interleaving", 0), 1000),
                    ("commands_written", c.get("commands_written", 0), 4000),
                    ("pump_schedules_with_real_interleaving", c.get("pump_schedules_with_real_interleaving", 0), 300),
-                   ("sim_race_lifetimes", c.get("sim_race_lifetimes", 0), 200)],
+                   ("sim_race_lifetimes", c.get("sim_race_lifetimes", 0), 200)]
+                  + ([] if c.get("real_device_unavailable") else
+                     [("real_stress_runs[serial]", c.get("real_stress_runs[serial]", 0), 3), ("real_stress_runs[tcp]", c.get("real_stress_runs[tcp]", 0), 2),
+                      ("real_stress_commands_received", c.get("real_stress_commands_received", 0), 2000),
+                      ("real_stress_connections_killed", c.get("real_stress_connections_killed", 0), 40)]),
         "assumptions": ["exhaustive below the stated preemption bound only; preemption points are source lines / opcodes of the transport "
                         "and protocol methods (library code they call is atomic for the scheduler)"],
-        "show": ["schedules", "schedules_with_real_interleaving", "writes_observed", "dropped_sends", "event_side_exceptions", "commands_queued", "commands_written"],
+        "show": ["schedules", "schedules_with_real_interleaving", "writes_observed", "dropped_sends", "event_side_exceptions", "commands_queued", "commands_written",
+                 "real_stress_runs", "real_stress_connections_killed", "real_stress_commands_received", "real_stress_other_thread_exceptions", "real_anomalies_not_reproduced"],
     }
